@@ -81,6 +81,39 @@ def write_clean_trace(evs, path):
             f.write(json.dumps(e, separators=(",", ":")) + "\n")
 
 
+MAX_TRACE_EVENTS = int(os.environ.get("VERIF_MAX_TRACE_EVENTS", "60000"))      # TLC handles behaviours of at most 65535 states; one state per trace line
+
+
+def validate_events(evs, clean, spec_dir, module, cfg, wd, *, tag, timeout=900, env=None, xmx="3g"):
+    """Writes evs to `clean` and validates them; a trace longer than TLC can follow is validated in segments that each
+    start at a Reset event (v.matched is reported in coordinates of the whole trace)."""
+    write_clean_trace(evs, clean)
+    if len(evs) <= MAX_TRACE_EVENTS:
+        return tlc.validate(spec_dir, module, cfg, clean, wd, timeout=timeout, env=env, tag=tag, xmx=xmx)
+    starts = [i for i, e in enumerate(evs) if e.get("e") == "Reset"] or [0]
+    segs, a = [], starts[0]
+    for k, st in enumerate(starts):
+        nxt = starts[k + 1] if k + 1 < len(starts) else len(evs)
+        if nxt - a > MAX_TRACE_EVENTS and st > a:
+            segs.append((a, st))
+            a = st
+    segs.append((a, len(evs)))
+    v, gen = None, 0
+    for si, (lo, hi) in enumerate(segs):
+        part = clean.replace(".clean.ndjson", ".s%02d.clean.ndjson" % si)
+        write_clean_trace(evs[lo:hi], part)
+        v = tlc.validate(spec_dir, module, cfg, part, wd, timeout=timeout, env=env, tag="%s_s%02d" % (tag, si), xmx=xmx)
+        if v.error:
+            return v
+        gen += v.generated
+        if not v.accepted:
+            v.matched += lo
+            v.total = len(evs)
+            break
+    v.generated = gen
+    return v
+
+
 def drive_and_validate(ctx, exe, executions, spec_dir, module, cfg, *, label="run", nbatch=None, harness_timeout=300,
                        tlc_timeout=900, env=None, harness_args=None, tlc_env=None, sample_every=None, end_line="END",
                        lenient_cfg=None, on_fired=None, xmx="3g", stale_errors=0.3):
@@ -117,8 +150,7 @@ def drive_and_validate(ctx, exe, executions, spec_dir, module, cfg, *, label="ru
             nres = sum(1 for e in evs if e.get("e") == "Reset")
             return ("died", bi, max(0, nres - 1), died, err)
         clean = os.path.join(wd, "b%03d.clean.ndjson" % bi)
-        write_clean_trace(evs, clean)
-        v = tlc.validate(spec_dir, module, use_cfg, clean, wd, timeout=tlc_timeout, env=tlc_env, tag="b%03d" % bi, xmx=xmx)
+        v = validate_events(evs, clean, spec_dir, module, use_cfg, wd, tag="b%03d" % bi, timeout=tlc_timeout, env=tlc_env, xmx=xmx)
         if v.error:
             return ("error", bi, 0, v.error, "")
         if v.accepted:
@@ -334,8 +366,7 @@ def drive_vsched(ctx, exe, blocks, spec_dir, module, cfg, *, label="vs", nbatch=
             for ex in remaining:
                 flat.append(ex["reset"])
                 flat += ex["events"]
-            write_clean_trace(flat, clean)
-            v = tlc.validate(spec_dir, module, cfg, clean, wd, timeout=tlc_timeout, tag="b%03d" % bi, xmx=xmx)
+            v = validate_events(flat, clean, spec_dir, module, cfg, wd, tag="b%03d" % bi, timeout=tlc_timeout, xmx=xmx)
             if v.error:
                 return ("error", bi, v.error, None, None)
             gen += v.generated
